@@ -110,12 +110,14 @@ CHECKS = {
             rapid("scalar", "^TestC03Scalar$", 60000, 2),
             rapid("tree", "^TestC03Tree$", 15000, 2),
             rapid("anyfallback", "^TestC03AnyFallback$", 5000, 1),
+            rapid("anymulti", "^TestC03AnyMulti$", 5000, 1),
         ],
         "thorough": [
             plain("regress", "^(TestRegressC03|TestC03Completeness|TestKnownC03)$"),
             rapid("scalar", "^TestC03Scalar$", 1000000, 8, timeout=3000),
             rapid("tree", "^TestC03Tree$", 200000, 8, timeout=3000),
             rapid("anyfallback", "^TestC03AnyFallback$", 100000, 1),
+            rapid("anymulti", "^TestC03AnyMulti$", 100000, 1),
         ],
     },
     "C05": {
